@@ -10,6 +10,7 @@ CONSTANTS
   Classes = {"ok", "soft", "badSig"}
   MaxBad = 2
   Emit = FALSE
+  EmitMod = 1
 INIT InitGraphs
 NEXT NextGraphs
 INVARIANTS TheoremsHold
